@@ -4,7 +4,8 @@
 (* configuration) universe and emits one case per pair together with what  *)
 (* the specification says about it: the sites at which an unordered        *)
 (* collection of >= 2 keys is walked (Reached), the key counts the concrete *)
-(* program must exhibit, and layer B's prediction (Leaky).                 *)
+(* program must exhibit, and the predictions of layer B (Leaky) and of the *)
+(* pinned commit's transcription (LeakyPinned).                            *)
 (*   cases = UniverseP(1) x W1Configs  \cup  UniverseP(2) x W2Configs      *)
 (* root -> configuration -> case, so that all TLC workers take part.       *)
 (***************************************************************************)
@@ -33,17 +34,18 @@ CaseRecord ==
    keys    |-> [s \in {x \in Sites : Active(x, c)} |-> KeyCount(s, p, c)],
    reached |-> {[site |-> s, keys |-> KeyCount(s, p, c), kind |-> ImplKind(s, c)] : s \in Reached(p, c)},
    leaky   |-> Leaky(p, c),
+   leaky_pinned |-> LeakyPinned(p, c),
    objects |-> Produced(c)]
 
 Emit == stage = "case" => PrintT("CASE " \o ToJson(CaseRecord))
 
 \* sanity of the site table, checked on every case
 TableOK == stage = "case" =>
-             /\ \A s \in Sites : ImplKind(s, c) \in Kinds /\ ObjectOf(s) \in Objects
+             /\ \A s \in Sites : ImplKind(s, c) \in Kinds /\ PinnedKind(s, c) \in Kinds /\ ObjectOf(s) \in Objects
              /\ {SiteSeq[i] : i \in DOMAIN SiteSeq} = Sites /\ Len(SiteSeq) = Cardinality(Sites)
              /\ ValidCfg(c)
              \* Risky covers everything layer B predicts, except sites that even the least program reaches
-             /\ (Leaky(p, c) # {} => Risky(p) \/ Leaky(Base, c) # {})
+             /\ (LeakyPinned(p, c) \cup Leaky(p, c) # {} => Risky(p) \/ LeakyPinned(Base, c) \cup Leaky(Base, c) # {})
              /\ \A s \in Reached(p, c) : ObjectOf(s) \in Produced(c)
 
 GenQuickW1 == ConfigsQuick
